@@ -36,6 +36,11 @@ const CTORS: &[&str] = &[
     "cow_borrowed",
     "cow_owned",
     "from_iter",
+    "from_iter_no_hint",
+    "from_iter_hint_too_small",
+    "from_iter_hint_too_large",
+    "from_iter_hint_zero",
+    "from_iter_filtered",
     "from_ref",
     "de_str",
     "de_string",
@@ -70,6 +75,22 @@ fn build(ctor: &str, data: &[u8]) -> Option<SharedBytes> {
         "cow_borrowed" => SharedBytes::from(Cow::Borrowed(data)),
         "cow_owned" => SharedBytes::from(Cow::<[u8]>::Owned(data.to_vec())),
         "from_iter" => data.iter().copied().collect::<SharedBytes>(),
+        // `size_hint` is advisory: the result is what the iterator yields, whatever it claims
+        "from_iter_no_hint" => Hinted { it: data.iter().copied(), hint: (0, None) }.collect::<SharedBytes>(),
+        "from_iter_hint_too_small" => {
+            let n = data.len() / 2;
+            Hinted { it: data.iter().copied(), hint: (n, Some(n)) }.collect::<SharedBytes>()
+        }
+        "from_iter_hint_too_large" => {
+            let n = data.len() * 2 + 3;
+            Hinted { it: data.iter().copied(), hint: (n, Some(n)) }.collect::<SharedBytes>()
+        }
+        "from_iter_hint_zero" => Hinted { it: data.iter().copied(), hint: (0, Some(0)) }.collect::<SharedBytes>(),
+        "from_iter_filtered" => {
+            // honest but inexact hint (0, Some(2n)): every second byte of a doubled sequence
+            let doubled: Vec<u8> = data.iter().flat_map(|b| [*b, b.wrapping_add(1)]).collect();
+            doubled.iter().copied().enumerate().filter(|(i, _)| i % 2 == 0).map(|(_, b)| b).collect::<SharedBytes>()
+        }
         "from_ref" => {
             let a = SharedBytes::from_slice(data);
             SharedBytes::from(&a)
@@ -86,6 +107,22 @@ fn build(ctor: &str, data: &[u8]) -> Option<SharedBytes> {
         "de_byte_buf" => SharedBytes::deserialize(ByteBufDe(data.to_vec())).ok()?,
         _ => unreachable!(),
     })
+}
+
+/// An iterator that yields what `it` yields and claims `hint`.
+struct Hinted<I> {
+    it: I,
+    hint: (usize, Option<usize>),
+}
+
+impl<I: Iterator<Item = u8>> Iterator for Hinted<I> {
+    type Item = u8;
+    fn next(&mut self) -> Option<u8> {
+        self.it.next()
+    }
+    fn size_hint(&self) -> (usize, Option<usize>) {
+        self.hint
+    }
 }
 
 fn h<T: Hash + ?Sized>(t: &T) -> u64 {
@@ -219,6 +256,10 @@ fn check_string_case(rep: &mut Report, bytes: &[u8]) {
 
 pub fn run(args: &Args) -> Report {
     let mut rep = Report::new(args);
+    #[cfg(not(miri))]
+    let threads_at_start = crate::procfs::tasks().len();
+    #[cfg(miri)]
+    let threads_at_start = 1usize;
     rep.rule = "every constructor x length class x content; clone/drop storms across threads with content \
                 verified at every hop; allocator-ledger balance and layout match on free (when built with the \
                 accounting allocator); UTF-8 acceptance compared with std::str::from_utf8 over all byte strings \
@@ -474,6 +515,47 @@ pub fn run(args: &Args) -> Report {
     }
     rep.count("storm_hand_offs", hops_total);
 
+    // ---- 4a. read, then drop, with no synchronisation between the threads afterwards: the
+    // thread that frees the buffer must be ordered after every other thread's last use of it
+    // (decided by the data-race detectors of the Miri / TSan builds; natively: content only)
+    {
+        let rounds = if miri { 6 } else { args.n(300, 3_000) };
+        let mut wrong = 0u64;
+        for round in 0..rounds {
+            let len = *rng.pick(&[1usize, 24, 600]);
+            let data = pattern(rng.next(), len);
+            let a = if round % 2 == 0 { SharedBytes::from_slice(&data) } else { SharedBytes::from_vec(data.clone()) };
+            let clones: Vec<SharedBytes> = (0..if miri { 2 } else { 3 }).map(|_| a.clone()).collect();
+            drop(a);
+            let go = std::sync::atomic::AtomicBool::new(false);
+            let bad = std::sync::atomic::AtomicU64::new(0);
+            std::thread::scope(|sc| {
+                for (k, x) in clones.into_iter().enumerate() {
+                    let (go, bad, data) = (&go, &bad, &data);
+                    sc.spawn(move || {
+                        while !go.load(std::sync::atomic::Ordering::Relaxed) {
+                            std::hint::spin_loop();
+                        }
+                        for _ in 0..k {
+                            std::thread::yield_now();
+                        }
+                        if &*x != &data[..] {
+                            bad.fetch_add(1, std::sync::atomic::Ordering::Relaxed);
+                        }
+                        drop(x);
+                    });
+                }
+                go.store(true, std::sync::atomic::Ordering::Relaxed);
+            });
+            wrong += bad.load(std::sync::atomic::Ordering::Relaxed);
+            rep.eval();
+        }
+        rep.count("unsynchronised_last_drop_rounds", rounds as u64);
+        if wrong > 0 {
+            rep.violation("storm-content", "C16/storm-content", json!({"wrong_reads_before_drop": wrong}), json!({"kind": "read then drop on 2-3 threads"}));
+        }
+    }
+
     // ---- 4b. two clones dropped at the same moment from two threads: the buffer
     // must be released exactly once (allocator ledger: neither leaked nor freed twice)
     if al::ENABLED {
@@ -505,15 +587,20 @@ pub fn run(args: &Args) -> Report {
                 });
             }
         };
-        // warm up whatever the runtime allocates lazily, then bracket
+        // warm up whatever the runtime allocates lazily, then bracket; the threads of earlier
+        // sections and of the bracket itself must have gone completely before a snapshot
         lockstep(20, &mut rng);
+        let settled0 = crate::util::settle_threads(threads_at_start, 20_000);
         let b0 = al::snapshot();
         let rounds = args.n(3_000, 40_000);
         lockstep(rounds, &mut rng);
+        let settled1 = crate::util::settle_threads(threads_at_start, 20_000);
         let b1 = al::snapshot();
         rep.eval();
         rep.count("lockstep_concurrent_drop_rounds", rounds as u64);
-        if b1.blocks != b0.blocks || b1.bytes != b0.bytes || b1.mismatches != b0.mismatches {
+        if !(settled0 && settled1) {
+            rep.note("allocator bracket skipped: helper threads did not go away within 20 s");
+        } else if b1.blocks != b0.blocks || b1.bytes != b0.bytes || b1.mismatches != b0.mismatches {
             rep.violation(
                 "concurrent-drop-release",
                 "C16/not-released-exactly-once-under-concurrent-drops",
